@@ -7,6 +7,7 @@
 
 mod c04;
 mod c05;
+mod c06;
 mod report;
 mod rng;
 mod runner;
@@ -21,7 +22,7 @@ use serde_json::{json, Value};
 use std::time::Instant;
 
 fn scenarios() -> Vec<&'static dyn Scenario> {
-    vec![&c05::C05, &c04::C04, &vmscript::Script]
+    vec![&c05::C05, &c04::C04, &c06::C06, &vmscript::Script]
 }
 
 fn scenario_by_name(name: &str) -> &'static dyn Scenario {
@@ -84,6 +85,7 @@ fn main() {
         "one" => cmd_one(&args[1..]),
         "determinism" => cmd_determinism(&args[1..]),
         "script" => cmd_script(&args[1..]),
+        "minimise" => cmd_minimise(&args[1..]),
         _ => {
             eprintln!("unknown command {}", args[0]);
             2
@@ -277,6 +279,7 @@ fn cmd_one(args: &[String]) -> i32 {
         strict: false,
         full_trace: args.iter().any(|a| a == "--trace"),
         tier_thorough: args.iter().any(|a| a == "--thorough"),
+        gen_only: false,
     };
     let r = runner::run_one(scn, &spec);
     println!("{} {} {}", r.outcome, r.signature, r.detail);
@@ -302,6 +305,7 @@ fn cmd_determinism(args: &[String]) -> i32 {
             strict: false,
             full_trace: false,
             tier_thorough: false,
+            gen_only: false,
         };
         let a = runner::run_one(scn, &spec);
         // second execution: forced from the first one's recorded decisions
@@ -350,6 +354,7 @@ fn cmd_script(args: &[String]) -> i32 {
         strict: false,
         full_trace: false,
         tier_thorough: false,
+        gen_only: false,
     };
     let r = runner::run_one(scn, &spec);
     println!("{} {} {}", r.outcome, r.signature, r.detail);
@@ -368,5 +373,23 @@ fn cmd_script(args: &[String]) -> i32 {
             println!("    {}", e.as_str().unwrap_or(""));
         }
     }
+    0
+}
+
+/// Re-minimise an existing replay file with a larger effort.
+fn cmd_minimise(args: &[String]) -> i32 {
+    let path = args.get(0).cloned().unwrap_or_default();
+    let effort: usize = arg_val(args, "--effort").and_then(|s| s.parse().ok()).unwrap_or(2000);
+    let text = std::fs::read_to_string(&path).expect("read replay");
+    let v: Value = serde_json::from_str(&text).expect("parse replay");
+    let scn = scenario_by_name(v["scenario"].as_str().unwrap_or(""));
+    scn.setup();
+    let first = json!({
+        "seed": v["seed"], "run": v["run"], "signature": v["signature"],
+        "report": {"workload": v["workload"], "decisions": v["decisions"]},
+    });
+    let (spec, res) = runner::minimise(scn, &first, v["thorough"].as_bool().unwrap_or(false), effort);
+    let out = runner::write_replay(scn, &spec, &res);
+    println!("minimised: {} ({} {})", out, res.outcome, res.signature);
     0
 }
